@@ -90,6 +90,11 @@ func (l *Loader) SetLimits(limits Limits) {
 	l.limits = limits
 }
 
+// Limits returns the limits now in force.
+func (l *Loader) Limits() Limits {
+	return l.getLimits()
+}
+
 func (l *Loader) getLimits() Limits {
 	l.mu.RLock()
 	defer l.mu.RUnlock()
